@@ -75,6 +75,7 @@ type Sock struct {
 	Closed   bool
 	CloseN   int
 	Usable   bool // Send succeeds
+	LogHandoff bool // log a Handed event when the client took a frame from Inbound
 	// hand-off bookkeeping
 	Delivered int // frames taken from the queue by the receiver
 }
@@ -99,6 +100,9 @@ func New(network string) *Sock {
 			}
 			s.Delivered++
 			s.in.Send(v)
+			if s.LogHandoff {
+				mc.Log(Handed{v})
+			}
 			if s.Closed {
 				break
 			}
@@ -201,3 +205,8 @@ type SockClosed struct{}
 func (SockClosed) String() string { return "SOCK-CLOSED" }
 
 func (s *Sock) LocalAddr() net.Addr { return s.Local }
+
+// Handed is logged (if LogHandoff) at the instant the client took a frame from Inbound().
+type Handed struct{ Svc knxnet.Service }
+
+func (h Handed) String() string { return "HANDED " + Describe(h.Svc) }
